@@ -962,6 +962,11 @@ class FunctionVerifier:
     def slice_view(self, st, base, elts, node, prog):
         """Loads through slices produce a fresh array value (a copy); only patterns used in
         scope: a[lo:hi] on the first axis and a[:, j] column selections."""
+        # leading integer indices select a sub-array (an index-prefix view); slice what remains
+        while len(elts) > 1 and not isinstance(elts[0], ast.Slice) and any(isinstance(e, ast.Slice) and (e.lower is not None or e.upper is not None) for e in elts[1:]):
+            ix = self.as_int(self.ev(elts[0], st, prog)).e
+            base = self.load(st, base, [ix], node, prog)
+            elts = elts[1:]
         shp = self.arr_shape(st, base)
         o = st.heap[base.loc]
         if len(elts) == 1 and isinstance(elts[0], ast.Slice):
